@@ -203,6 +203,7 @@ type Case struct {
 	Layout *Layout  `json:"layout,omitempty"`
 	Lines  []string `json:"comment_lines,omitempty"`
 	Marker string   `json:"markers,omitempty"`
+	Ctx    *CtxCase `json:"context_doc,omitempty"`
 }
 
 func checkLayouts(c *core.Ctx, ls []Layout) {
@@ -387,6 +388,101 @@ func checkStdDocs(c *core.Ctx) {
 		}
 		c.Count("std_declarations_judged:"+path, n)
 	}
+}
+
+// ---------------------------------------------------------------- Context.Doc, as generators see it
+
+// CtxCase: one run of a recording generator over two packages; the tags Context.Doc reports for a
+// declaration are its own over the package's over the run's Globals, whatever was asked before.
+type CtxCase struct {
+	Globals int   `json:"globals_shape"` // 0 nil, 1 empty non-nil map, 2 two entries
+	Own     []int `json:"own_tag_form_of_Alpha_Beta_Gamma"`
+}
+
+var ctxGlobals = []string{"nil", "empty non-nil map", `{"team": ["infra"], "shared": ["g"]}`}
+var ownTagForms = [][]string{nil, {"+own"}, {"+shared=d", "+own=1", "+own=2"}}
+
+func checkContextDoc(c *core.Ctx, cc CtxCase) {
+	cs := Case{Ctx: &cc}
+	c.Eval(1)
+	dir := pipe.TempDir("c12ctx")
+	defer os.RemoveAll(dir)
+	const mod = "x.io/test"
+	pkgDoc := map[string][]string{"p1": {"+gengo:g1", "+shared=p", "+pkgonly"}, "p2": {"+gengo:g1"}}
+	typesOf := map[string][]string{"p1": {"Alpha", "Beta", "Gamma"}, "p2": {"Delta", "Epsilon"}}
+	own := map[string][]string{"p2.Delta": nil, "p2.Epsilon": {"+own=e"}}
+	for i, n := range typesOf["p1"] {
+		own["p1."+n] = ownTagForms[cc.Own[i]]
+	}
+	t := pipe.Tree{"go.mod": pipe.GoMod(mod, "1.24")}
+	for pkg, ts := range typesOf {
+		var b strings.Builder
+		b.WriteString("// Package " + pkg + " is a C12 case.\n")
+		for _, l := range pkgDoc[pkg] {
+			b.WriteString("// " + l + "\n")
+		}
+		b.WriteString("package " + pkg + "\n\n")
+		for _, n := range ts {
+			b.WriteString("// " + n + " does things.\n")
+			for _, l := range own[pkg+"."+n] {
+				b.WriteString("// " + l + "\n")
+			}
+			b.WriteString("type " + n + " struct{ X int }\n\n")
+		}
+		t[pkg+"/"+pkg+".go"] = b.String()
+	}
+	if err := pipe.WriteTree(dir, t); err != nil {
+		c.Internal("%v", err)
+		return
+	}
+	var globals map[string][]string
+	switch cc.Globals {
+	case 1:
+		globals = map[string][]string{}
+	case 2:
+		globals = map[string][]string{"team": {"infra"}, "shared": {"g"}}
+	}
+	before := fmt.Sprint(globals)
+	o := pipe.Exec(pipe.Spec{Dir: dir, Entrypoints: []string{"./p1", "./p2"}, Globals: globals,
+		Gens: []pipe.GenScript{{Name: "g1", Default: pipe.Action{DocOfSelf: true}}}})
+	c.Trans(1)
+	if !o.OK() {
+		c.Fail("", cs, "the recording run failed: load=%q err=%q panic=%q", o.LoadErr, o.Err, o.Panic)
+		return
+	}
+	if fmt.Sprint(globals) != before {
+		c.Fail("C12-context-doc-writes-into-globals", cs, "the run modified the caller's Globals map: %s before, %v after", before, globals)
+	}
+	for pkg, ts := range typesOf {
+		src, _ := os.ReadFile(dir + "/" + pkg + "/zz_generated.g1.go")
+		pt, _ := refExtract(pkgDoc[pkg], "+@")
+		for _, n := range ts {
+			ot, _ := refExtract(own[pkg+"."+n], "+@")
+			want := map[string][]string{}
+			for _, m := range []map[string][]string{globals, pt, ot} {
+				for k, v := range m {
+					want[k] = v
+				}
+			}
+			var ks []string
+			for k, v := range want {
+				ks = append(ks, fmt.Sprintf("%s=%q", k, v))
+			}
+			sort.Strings(ks)
+			line := fmt.Sprintf("// DOC-OF-SELF %s/%s.%s tags {%s} doc %q", mod, pkg, n, strings.Join(ks, " "), []string{"does things."})
+			if !strings.Contains(string(src), line+"\n") {
+				got := ""
+				for _, l := range strings.Split(string(src), "\n") {
+					if strings.Contains(l, "DOC-OF-SELF "+mod+"/"+pkg+"."+n+" ") {
+						got = l
+					}
+				}
+				c.Fail("", cs, "Context.Doc(%s.%s) with Globals = %s: a generator saw\n%s\nwant (own tags over package tags over Globals)\n%s", pkg, n, ctxGlobals[cc.Globals], got, line)
+			}
+		}
+	}
+	c.State(fmt.Sprintf("ctxdoc/%d", cc.Globals))
+	c.Nontrivial(fmt.Sprint("ctxdoc", cc))
 }
 
 func lookup(p gengotypes.Package, name string) types.Object {
@@ -591,6 +687,16 @@ func run(c *core.Ctx) {
 	if c.Next() {
 		checkStdDocs(c)
 	}
+	// Context.Doc as generators see it: 3 shapes of Globals x every assignment of 3 own-tag forms to 3 types
+	c.Bound("context_doc_globals_shapes", ctxGlobals)
+	c.Bound("context_doc_own_tag_forms", ownTagForms)
+	for g := range ctxGlobals {
+		for a := 0; a < 27; a++ {
+			if c.Next() {
+				checkContextDoc(c, CtxCase{Globals: g, Own: []int{a % 3, a / 3 % 3, a / 9}})
+			}
+		}
+	}
 	// tag extraction
 	lineLen := c.Pick(5, 7)
 	c.Bound("tag_line_alphabet", tagAlphabet)
@@ -636,6 +742,10 @@ func replay(c *core.Ctx, raw json.RawMessage) {
 	}
 	if cs.Layout != nil {
 		checkLayouts(c, []Layout{*cs.Layout})
+		return
+	}
+	if cs.Ctx != nil {
+		checkContextDoc(c, *cs.Ctx)
 		return
 	}
 	checkLines(c, cs.Lines, cs.Marker)
